@@ -360,6 +360,36 @@ impl IndexTable {
 		((base.0.as_u64(), base.1), (fast.0.as_u64(), fast.1))
 	}
 
+	/// Verification hook: every non-empty entry of the table as `entries` reports it (log
+	/// overlay first, then the file), as (chunk, entry); all-zero chunks of the file are skipped
+	/// without being decoded.
+	#[cfg(pdb_verif)]
+	pub fn verif_nonempty_entries(&self, log: &impl LogQuery) -> Result<Vec<(u64, Entry)>> {
+		let mut out = Vec::new();
+		let map = self.map.read();
+		for c in 0..self.id.total_chunks() {
+			let entries = if let Some(entries) =
+				log.with_index(self.id, c, |chunk| *Self::transmute_chunk(chunk))
+			{
+				entries
+			} else if let Some(map) = &*map {
+				let chunk = Self::chunk_at(c, map)?;
+				if chunk.0 == EMPTY_CHUNK.0 {
+					continue
+				}
+				*Self::transmute_chunk(chunk)
+			} else {
+				continue
+			};
+			for e in entries.iter() {
+				if !e.is_empty() {
+					out.push((c, *e));
+				}
+			}
+		}
+		Ok(out)
+	}
+
 	/// Verification hook: `recover_key_prefix` of an index table with `index_bits` bits.
 	#[cfg(pdb_verif)]
 	pub fn verif_recover_key_prefix(index_bits: u8, chunk: u64, entry: u64) -> Key {
